@@ -6,6 +6,7 @@
 //!
 //! A case is one line of the driver's protocol, so the same text is fed to the Lean driver.
 mod common;
+mod dns;
 mod g_wire;
 mod g_codes;
 mod g_name;
